@@ -126,8 +126,21 @@ def sort_spec(case):
     return ','.join(parts)
 
 
+_templates = {}
+
+
+def template(src):
+    # compiled templates are shared between cases on purpose: with sort_expr / reverse_expr the same
+    # tag object is rendered with different specs, which exposes state kept on the tag between renderings
+    t = _templates.get(src)
+    if t is None:
+        from DocumentTemplate import HTML
+        t = HTML(src)
+        _templates[src] = t
+    return t
+
+
 def observe(case):
-    from DocumentTemplate import HTML
     attrs = []
     kw = {'rcmp': rcmp}
     if case['sorted']:
@@ -153,7 +166,7 @@ def observe(case):
     L = elems if case['seqtype'] == 'list' else (tuple(elems) if case['seqtype'] == 'tuple' else iter(list(elems)))
     before = copy.copy(L) if case['seqtype'] != 'iter' else None
     try:
-        out = HTML(src)(L=L, **kw)
+        out = template(src)(L=L, **kw)
     except Exception as e:  # noqa
         return {'src': src, 'exc': type(e).__name__ + ': ' + str(e)[:60]}
     res = {'src': src, 'raw': out}
